@@ -70,10 +70,12 @@ def oracle(tr, script, meta):
                     break
                 sent += bytes.fromhex(l.split()[1]) if len(l.split()) > 1 else b""
             ok = False
+            if not sent and nxt.startswith("SENDFAIL"):
+                ok = True         # the transport refused the write: no report can be demanded
             if sent:
                 ps, _, _ = R.parse_pdus(sent)
                 ok = bool(ps) and ps[0]["type"] == R.ERROR and ps[0]["field"] == 8 and ps[0].get("enc") == c["raw"][:8]
-                if not ps and any(l.startswith("SENDFAIL") for l in rest[:len(sent) + 2]):
+                if not ok and any(l.startswith("SENDFAIL") for l in rest[:40]) and not (ps and ps[0]["len"] == len(ps[0]["raw"])):
                     ok = True     # the send itself failed: nothing more can be demanded
             if not ok and c.get("hdr_only"):
                 return {"key": "wrong-version-not-refused", "what": "a PDU with a version other than the negotiated one was not answered by an "
